@@ -89,7 +89,8 @@ class EvalMainContext(object):
         return self._hashes[path]
 
     def is_authorized_path(self, cp: CanonicalPath) -> bool:
-        for idx in range(len(self.whitelisted_packages)):
+        # All the prefixes of the path (the number of accepted packages is unrelated to the depth of a path)
+        for idx in range(len(cp._path.parts) + 1):
             if ".".join(cp._path.parts[:idx]) in self.whitelisted_packages:
                 return True
         return False
